@@ -14,13 +14,40 @@ use serde_json::json;
 use std::cell::RefCell;
 use std::rc::Rc;
 
-/// Field alphabet: exercises csv quoting; no tab, no '\n'.
-const FIELD_CHARS: [char; 18] = [
-    'a', '1', '+', '-', '.', ' ', ',', ';', '"', '\'', '#', '\r', 'é', '中', '=', '%', 'Z', '0',
+/// Field alphabet: every printable ASCII character, blank, carriage return and some multi-byte
+/// and control characters (exercises csv quoting); no tab, no '\n'. 'a' first (simplest).
+fn field_chars() -> &'static [char] {
+    static A: std::sync::OnceLock<Vec<char>> = std::sync::OnceLock::new();
+    A.get_or_init(|| {
+        let mut v = vec!['a', '1', '+', '-', '.', ' ', ',', ';', '"', '\'', '#', '\r', 'é', '中', '=', '%'];
+        for c in 33u8..=126 {
+            if !v.contains(&(c as char)) {
+                v.push(c as char);
+            }
+        }
+        v.extend(['😀', '\u{1}', '\u{7f}', '\u{a0}', '\u{0}', '\u{b}']);
+        v
+    })
+}
+
+/// Strings that look special to parsers or spreadsheets.
+const WORDS: [&str; 20] = [
+    "NA", "true", "false", "null", "None", "%3B", "%09", "1e5", "-0", "+1", "0x10", "inf", "NaN", "1.0", "00", ".", "-", "+", "\\N", "\\t",
 ];
 
 fn gen_field(w: &World, lo: u64, hi: u64, first_col: bool) -> String {
-    let mut s = string_from(w, &FIELD_CHARS, lo, hi);
+    let mut s = match w.draw(12) {
+        0 => WORDS[w.draw(WORDS.len() as u64) as usize].to_string(),
+        1 => string_from(w, field_chars(), lo, hi.max(300)),
+        2 if w.chance(1, 8) => {
+            // a field of a boundary length (255, 256, 4096, 8192, ...): csv and BufWriter buffers
+            let n = crate::gen::magic_size(w, 14);
+            let c = *w.pick(field_chars());
+            let c = if c == '\0' || c == '\r' { 'x' } else { c };
+            std::iter::repeat(c).take(n).collect()
+        }
+        _ => string_from(w, field_chars(), lo, hi),
+    };
     if first_col && s.starts_with('#') {
         // a first column starting with '#' *is* a comment line in BED/GFF: outside the domain
         s.insert(0, 'c');
@@ -92,9 +119,17 @@ impl BedModel {
 }
 
 fn gen_bed(w: &World) -> (Vec<BedModel>, usize) {
-    let k = w.small(0, 9) as usize;
+    let k = if w.chance(1, 40) { w.small(0, 40) as usize } else { w.small(0, 9) as usize };
     let mut v: Vec<BedModel> = vec![];
-    while w.more(v.len() as u64, 5) {
+    let many = w.chance(1, 100);
+    if many {
+        w.probe("many_records_regime");
+    }
+    loop {
+        let go = if many { w.more_p(v.len() as u64, 300, 100, 101) } else { w.more(v.len() as u64, 5) };
+        if !go {
+            break;
+        }
         let chrom = gen_field(w, 0, 6, true);
         let start = gen_u64(w);
         let end = gen_u64(w);
@@ -160,13 +195,33 @@ impl GffModel {
     }
 }
 
-const GFF3_ATTR: [char; 14] = ['k', 'v', 'I', 'D', '1', '_', ' ', '.', ':', '-', 'é', '中', '%', '+'];
-const GFF2_ATTR: [char; 13] = ['k', 'v', 'I', 'D', '1', '_', '.', ':', '-', 'é', '中', '=', ','];
+/// Attribute alphabets: printable ASCII and some multi-byte characters minus the dialect's
+/// delimiters (GFF3: '=' ';' ','; GFF2/GTF2: blank ';' NUL), tab, line breaks and quote characters.
+fn attr_chars(d: Dialect) -> &'static [char] {
+    static G3: std::sync::OnceLock<Vec<char>> = std::sync::OnceLock::new();
+    static G2: std::sync::OnceLock<Vec<char>> = std::sync::OnceLock::new();
+    let build = |forbidden: &[char], first: &[char]| -> Vec<char> {
+        let mut v: Vec<char> = first.to_vec();
+        for c in 33u8..=126 {
+            let c = c as char;
+            if !forbidden.contains(&c) && c != '"' && c != '\'' && !v.contains(&c) {
+                v.push(c);
+            }
+        }
+        v.extend(['é', '中', '😀', '\u{a0}', '\u{7f}', '\u{1}']);
+        v
+    };
+    match d {
+        Dialect::Gff3 => G3.get_or_init(|| build(&['=', ';', ','], &['k', 'v', 'I', 'D', '1', '_', ' ', '.', ':', '-', '%', '+'])),
+        _ => G2.get_or_init(|| build(&[' ', ';'], &['k', 'v', 'I', 'D', '1', '_', '.', ':', '-', '=', ',', '%'])),
+    }
+}
 
 fn gen_attr_string(w: &World, d: Dialect, is_key: bool) -> String {
-    let mut s = match d {
-        Dialect::Gff3 => string_from(w, &GFF3_ATTR, 1, 6),
-        _ => string_from(w, &GFF2_ATTR, 1, 6),
+    let mut s = match w.draw(14) {
+        0 if !is_key => WORDS[w.draw(WORDS.len() as u64) as usize].to_string(),
+        1 => string_from(w, attr_chars(d), 1, 200),
+        _ => string_from(w, attr_chars(d), 1, 6),
     };
     if d == Dialect::Gff3 && is_key && s.starts_with(' ') {
         // the GFF3 reader skips blanks in front of a key by design
@@ -177,15 +232,29 @@ fn gen_attr_string(w: &World, d: Dialect, is_key: bool) -> String {
 
 fn gen_gff(w: &World, d: Dialect) -> Vec<GffModel> {
     let mut v: Vec<GffModel> = vec![];
-    while w.more(v.len() as u64, 4) {
+    let many = w.chance(1, 100);
+    if many {
+        w.probe("many_records_regime");
+    }
+    loop {
+        let go = if many { w.more_p(v.len() as u64, 80, 30, 31) } else { w.more(v.len() as u64, 4) };
+        if !go {
+            break;
+        }
         let mut attrs: Vec<(String, Vec<String>)> = vec![];
-        while w.more(attrs.len() as u64, 4) {
-            let mut key = gen_attr_string(w, d, true);
+        // at most 5 keys: the hash order of the keys is forced by rejection sampling (5! = 120)
+        while w.more(attrs.len() as u64, 5) {
+            let mut key = match w.draw(10) {
+                // a key that extends an earlier key of this record
+                0 if !attrs.is_empty() => format!("{}{}", attrs[w.draw(attrs.len() as u64) as usize].0, gen_attr_string(w, d, false)),
+                _ => gen_attr_string(w, d, true),
+            };
             while attrs.iter().any(|(k, _)| *k == key) {
                 key.push('2');
             }
             let mut vals = vec![gen_attr_string(w, d, false)];
-            while w.more(vals.len() as u64, 3) && w.chance(1, 2) {
+            let max_vals = if w.chance(1, 20) { 12 } else { 3 };
+            while w.more(vals.len() as u64, max_vals) && w.chance(2, 3) {
                 vals.push(gen_attr_string(w, d, false));
             }
             attrs.push((key, vals));
@@ -956,7 +1025,7 @@ pub fn property() -> Property {
         ],
         expected_probes: &[
             "multi_valued_attribute", "key_order_differs_from_insertion", "quoted_csv_field", "csv_field_or_line_split_across_reads",
-            "damage_bad_number", "damage_bad_phase", "damage_phase_in_u8_range", "damage_column_missing", "damage_column_added", "eintr_surfaced_by_reader",
+            "damage_bad_number", "damage_bad_phase", "damage_phase_in_u8_range", "damage_column_missing", "damage_column_added", "eintr_surfaced_by_reader", "many_records_regime",
         ],
         quick_runs: 300_000,
         thorough_runs: 20_000_000,
